@@ -561,17 +561,131 @@ def _conv_nonpoly(self, t):
     return Converter.atom(self, t)
 
 
-def check_identity(ctx, a, b, hyp=()):
-    """solver check of the (Laurent-)polynomial identity a == b; hyp: denominators != 0"""
-    import time
+def _nodiv(t, inv, memo):
+    """x / d -> x * w(d) with one fresh w per distinct denominator d"""
+    key = t.get_id()
+    hit = memo.get(key)
+    if hit is not None:
+        return hit
+    out = t
+    if z3.is_app(t) and t.num_args():
+        ch = [_nodiv(c, inv, memo) for c in t.children()]
+        if t.decl().kind() == z3.Z3_OP_DIV:
+            # 1 / (f1 * f2 * ...) = w_f1 * w_f2 * ...  (a product is non-zero iff every factor is)
+            out, st = ch[0], [ch[1]]
+            while st:
+                d = st.pop()
+                if z3.is_app(d) and d.decl().kind() == z3.Z3_OP_MUL:
+                    st.extend(d.children())
+                    continue
+                if z3.is_rational_value(d):
+                    out = out / d
+                    continue
+                if d.get_id() not in inv:
+                    inv[d.get_id()] = (d, z3.Real("ci_inv!%d" % len(inv)))
+                out = out * inv[d.get_id()][1]
+        else:
+            out = t.decl()(*ch)
+    memo[key] = out
+    return out
+
+
+def _laurent_certificate(diff, inv):
+    """diff: division-free term over the variables and the inverses w_d.  Untrusted algebra finds cofactors C_d
+    with  diff == sum_d C_d * (d * w_d - 1)  as a plain polynomial identity; z3 confirms that identity (its
+    rewriter normalises it to 0, else an unconditional solver query).  With d * w_d == 1 this gives diff == 0."""
+    conv = Converter()
+    P = conv.to_poly(diff)
+    if conv.inverse:
+        raise NotPolynomial("unexpected division")
+    cert = None
+    for d, w in inv.values():
+        D = conv.to_poly(d)
+        if D.nterms() != 1:
+            raise NotPolynomial("denominator is not a monomial")
+        (md, cd), = D.t.items()
+        W = conv.to_poly(w)
+        (mw, _), = W.t.items()
+        lead = md + mw
+        # exponents of the lead monomial
+        exps, mm, i = [], lead, 0
+        while mm:
+            e = mm & MASK
+            if e:
+                exps.append((BITS * i, e))
+            mm >>= BITS
+            i += 1
+        C = {}
+        while True:
+            keep, moved = {}, {}
+            for m, c in P.t.items():
+                if all(((m >> sh) & MASK) >= e for sh, e in exps):
+                    m2 = m - lead
+                    moved[m2] = moved.get(m2, 0) + Fraction(c) / Fraction(cd)
+                else:
+                    keep[m] = c
+            if not moved:
+                break
+            for m2, c in moved.items():
+                C[m2] = C.get(m2, 0) + c
+            P = Poly(keep, P.deg) + Poly({m: _norm(c) for m, c in moved.items() if c != 0}, P.deg)
+        Cp = Poly({m: _norm(c) for m, c in C.items() if c != 0}, P.deg)
+        if not Cp.is_zero():
+            term = conv.to_z3(Cp) * (d * w - 1)
+            cert = term if cert is None else cert + term
+    if not P.is_zero() or cert is None:
+        return False
+    zr = z3.simplify(diff - cert, som=True)
+    if z3.is_rational_value(zr) and zr.numerator_as_long() == 0:
+        return True
     s = z3.Solver()
-    s.set("timeout", 30000)
-    for h in hyp:
-        s.add(h)
-    s.add(a != b)
+    s.set("timeout", 10000)
+    s.add(diff != cert)
+    return s.check() == z3.unsat
+
+
+def check_identity(ctx, a, b, hyp=()):
+    """solver check of the (Laurent-)polynomial identity a == b; hyp: denominators != 0.
+    First with divisions replaced by inverses w (d * w == 1: under d != 0 that is what x / d means; the hypotheses
+    cover every denominator, else the division-free query is skipped), which nlsat decides at once; the literal
+    query is the fall-back."""
+    import time
     t0 = time.time()
-    r = s.check()
-    ctx.stats.add("certificate", time.time() - t0)
+    try:
+        inv, memo = {}, {}
+        a2, b2 = _nodiv(a, inv, memo), _nodiv(b, inv, memo)
+        r = z3.unknown
+        # z3's rewriter in sum-of-monomials mode: a polynomial identity normalises to 0 = 0 (the inverses w are
+        # plain variables here, so this only settles identities that do not need d * w == 1)
+        zr = z3.simplify(a2 - b2, som=True)
+        if z3.is_rational_value(zr) and zr.numerator_as_long() == 0:
+            return True
+        if inv:
+            try:
+                if _laurent_certificate(a2 - b2, inv):
+                    return True
+            except NotPolynomial:
+                pass
+        covered = all(any(h.eq(d != 0) for h in hyp) or (z3.is_rational_value(d) and d.numerator_as_long() != 0)
+                      for d, _ in inv.values())
+        if inv and covered:
+            s = z3.Solver()
+            s.set("timeout", 10000)
+            for h in hyp:
+                s.add(h)
+            for d, w in inv.values():
+                s.add(d * w == 1)
+            s.add(a2 != b2)
+            r = s.check()
+        if r != z3.unsat:
+            s = z3.Solver()
+            s.set("timeout", 30000)
+            for h in hyp:
+                s.add(h)
+            s.add(a != b)
+            r = s.check()
+    finally:
+        ctx.stats.add("certificate", time.time() - t0)
     if r != z3.unsat:
         raise NotPolynomial("certificate identity not confirmed by the solver (%s)" % r)
     return True
